@@ -190,16 +190,9 @@ func (s *ReverseSuffixSearcher) Find(haystack []byte) *Match {
 	// For matchStartZero (unanchored .* prefix), match starts at the beginning
 	// of the line containing the LAST suffix — .* (AnyCharNotNL) cannot cross \n.
 	if s.matchStartZero {
-		lastPos := bytes.LastIndex(haystack, s.suffixBytes)
-		if lastPos == -1 {
-			return nil
-		}
-		revEnd := lastPos + s.suffixLen
-		if revEnd > len(haystack) {
-			revEnd = len(haystack)
-		}
-		matchStart := lineStartBefore(haystack, 0, lastPos)
-		return NewMatch(matchStart, revEnd, haystack)
+		// The leftmost match is on the FIRST line that holds the suffix (up to
+		// the last suffix on that line), not on the last such line.
+		return s.FindAt(haystack, 0)
 	}
 
 	// For bounded wildcards (e.g., \d+\.\d+\.35), find the FIRST suffix
